@@ -49,6 +49,9 @@ pub fn check_decode(out: &mut Out, prop: &str, b: &[u8], origin: &str) -> bool {
             if prop == "C06" {
                 let site = panic_site(&p);
                 out.violation(&format!("C06 from_bytes panic {}", site), &format!("from_bytes panicked on {} input: {}", origin, p), replay_bytes("decode", b, json!({"origin": origin})));
+            } else if refr.is_ok() {
+                // C05: a panic is "does not accept"; the panic itself is C06's verdict
+                out.violation("C05 rejects-what-reference-accepts err=panic", &format!("from_bytes panicked on {} which the reference decoder accepts: {}", short(b), p), replay_bytes("decode", b, json!({"origin": origin})));
             }
             return false;
         }
@@ -158,7 +161,7 @@ fn check_display(out: &mut Out, b: &[u8], origin: &str) {
         Err(_) => {
             let p = take_panics().join(" | ");
             out.violation(
-                &format!("C06 display panic {} nested-unparsable", panic_site(&p)),
+                &format!("C06 display panic {}", panic_site(&p)),
                 &format!("Display of a successfully decoded message panicked ({}); nested tags present: {:?}; input {}", p, nested, short(b)),
                 replay_bytes("display", b, json!({"origin": origin, "nested": nested})),
             );
@@ -424,6 +427,29 @@ pub fn run(ctx: &Ctx, out: &mut Out, prop: &str) {
             }
             if k % 1024 == 0 && !ctx.time_left() {
                 break;
+            }
+        }
+        // moderately deep nesting (1..=24 levels) of well-formed messages, in process
+        for k in 0..ctx.share(2_000, 40_000) {
+            let depth = 1 + (k % 24) as usize;
+            let mut inner = random_valid(&mut rng, 16, false);
+            if inner.fields.is_empty() {
+                inner.set(NONC, &[0; 4]);
+            }
+            let mut b = inner.encode();
+            for d in 0..depth {
+                let mut m = RefMsg::new();
+                m.set([CERT, DELE, SREP][(d + k as usize) % 3], &b);
+                if rng.chance(1, 3) {
+                    m.set(SIG, &rng.bytes(8));
+                }
+                b = m.encode();
+            }
+            out.case(fnv64(&b), true);
+            out.obs("nested_chains", 1);
+            out.obs_max("nested_chain_depth", depth as i64);
+            if check_decode(out, prop, &b, "nested-chain") {
+                check_display(out, &b, "nested-chain");
             }
         }
         // deep nesting inside the 64 KiB bound: run in a child process, because running out
